@@ -2364,8 +2364,34 @@ def c20(ctx):
                 ctx.S("the verdict the tool prints for a line depends on the lines before it (the same line alone in a file gets another verdict)",
                       op="cli " + hx(b"\n".join(order[:k + 1]) + b"\n")[:800], line=repr(order[k]) if k < len(order) else None, after=repr(order[k - 1]) if 0 < k <= len(order) else None,
                       printed=repr(heads[k:k + 1]), alone=repr(want[k:k + 1]))
+    # the tool as built for the idnkit back end (library and tool by the repository's Makefiles, FORCE_IDN=idnkit): same verdict per line as the
+    # libidn2 build prints for the same file, and a normal exit
+    if "x:cli-idnkit" in ctx.drives:
+        exk = ctx.drive("x:cli-idnkit")
+        envk = dict(env, LD_LIBRARY_PATH=os.path.dirname(os.path.dirname(exk)) + ":" + os.path.join(os.path.dirname(os.path.dirname(exk)), "_idnkit/lib"))
+        pick = [f for f in files if len(f) < 600][:: (4 if ctx.tier == "quick" else 1)] + [b"a@b.com\n", "ж@почта.рф\n".encode(), b"a@b.com\n" * 50, b"bad\n\xff@x\n"]
+        for idx, f in enumerate(pick):
+            fn = os.path.join(ctx.scr.dir, "clik.txt")
+            open(fn, "wb").write(f)
+            p2 = subprocess.run([exk, fn], stdout=subprocess.PIPE, stderr=subprocess.PIPE, env=envk)
+            p1 = subprocess.run([exe, fn], stdout=subprocess.PIPE, stderr=subprocess.PIPE, env=env)
+            ctx.evals += 1
+            ctx.nontrivial.add("idnkit:" + hx(f[:200]))
+            op = "cli[idnkit] " + hx(f)[:800]
+            if p2.returncode != 0:
+                ctx.S("the eav tool built for the idnkit back end does not terminate normally (exit %d)" % p2.returncode, op=op, variant="x:cli-idnkit", stderr=p2.stderr.decode(errors="replace")[-900:])
+                break
+            h1 = [ln[:6] + ln[6:] for ln in p1.stdout.split(b"\n") if ln[:6] in (b"PASS: ", b"FAIL: ")]
+            h2 = [ln[:6] + ln[6:] for ln in p2.stdout.split(b"\n") if ln[:6] in (b"PASS: ", b"FAIL: ")]
+            if [x[6:] for x in h1] != [x[6:] for x in h2]:
+                ctx.S("the tool built for the idnkit back end does not print one verdict line per non-comment line with the same echo as the libidn2 build", op=op, variant="x:cli-idnkit",
+                      idn2=repr(h1[:4]), idnkit=repr(h2[:4]))
+            elif [x[:4] for x in h1] != [x[:4] for x in h2]:
+                # the converters are one and the same library here (the stand-in forwards to libidn2), so PASS/FAIL must agree
+                k = next(i for i, (a_, b_) in enumerate(zip(h1, h2)) if a_[:4] != b_[:4])
+                ctx.S("the tool built for the idnkit back end prints another verdict than the library's decision", op=op, variant="x:cli-idnkit", idn2=repr(h1[k]), idnkit=repr(h2[k]))
 RULES["C20"] = "distinct input files: 31 line shapes (empty, blanks, comments, trimming cases, invalid UTF-8, embedded CR, 2-8 KiB lines) x LF/CRLF x final newline x position, random files of 0-12 lines from the address corpora and random bytes; the real binary under ASan+UBSan+LSan"
-VARIANTS_OF["C20"] = {"quick": ["default", "x:cli"], "thorough": ["default", "x:cli"]}
+VARIANTS_OF["C20"] = {"quick": ["default", "x:cli", "x:cli-idnkit"], "thorough": ["default", "x:cli", "x:cli-idnkit"]}
 TRUSTED_EXTRA["C20"] = ["stdio, getline's reallocation and process exit are runtime behaviour observed on the real binary; the trimming and the rendering of a line are modelled (Eav/Cli.lean) and compared with the binary's output"]
 
 PROPS = collections.OrderedDict()
